@@ -87,6 +87,7 @@ TNextX == /\ l <= Len(Rec)
              \/ (SvOfUpdate /\ UNCHANGED H)
              \/ (Sync /\ UNCHANGED H)
              \/ (Nondet /\ UNCHANGED H)
+             \/ (Crash /\ UNCHANGED H)
              \/ SnapEv
              \/ RestoreEv
 
